@@ -181,6 +181,18 @@ func (ps *specParser) parseExpr() (*SExpr, error) {
 		if name.k != "id" {
 			return nil, fmt.Errorf("quantifier: expected variable at %d", name.pos)
 		}
+		if ps.isOp(":") {
+			// unbounded: forall k :: body
+			ps.next()
+			if err := ps.expectOp(":"); err != nil {
+				return nil, err
+			}
+			body, err := ps.parseExpr()
+			if err != nil {
+				return nil, err
+			}
+			return &SExpr{Kind: SQuant, Op: t.s, Name: name.s, X: body}, nil
+		}
 		if in := ps.next(); in.k != "id" || in.s != "in" {
 			return nil, fmt.Errorf("quantifier: expected 'in' at %d", in.pos)
 		}
